@@ -95,6 +95,11 @@ impl<'s> ScalarCow<'s> {
         }
     }
 
+    /// Is this a string (as opposed to a value that merely can be interpreted as one)?
+    pub(crate) fn is_str(&self) -> bool {
+        matches!(self.0, ScalarCowEnum::Str(_))
+    }
+
     /// Interpret as an integer, if possible
     pub fn to_integer(&self) -> Option<i64> {
         match self.0 {
